@@ -217,7 +217,25 @@ def slotsOK (T : Tables) : Bool :=
   T.subSlots.contains "_backup" && T.copySlots.contains "_name" && T.copySlots.contains "_meta" &&
   T.copyAtomsDeep && T.copyBondsDeep && T.subAtomsDeep && T.subBondsDeep && !T.elementCopySharesXY
 
+/-- shape of the abort path: unconditional events; one `restore` of all five slots; afterwards nothing touches the
+molecule; `_changed` reset; `_backup` dropped after the restore.  Flags: restored, `_changed` reset, backup dropped. -/
+def abortShape : Bool → Bool → Bool → List GEv → Bool
+  | r, n, b, [] => r && n && b
+  | r, n, b, ge :: rest =>
+    ge.gs.isEmpty &&
+    match ge.e with
+    | .restore slots =>
+        !b && ["_atoms", "_bonds", "_meta", "_name", "__dict__"].all slots.contains && abortShape true n b rest
+    | .changedNone => abortShape r true b rest
+    | .backupRead => !b && abortShape r n b rest
+    | .changedRead | .stereoWrite => abortShape r n b rest
+    | .backupNone => r && !b && abortShape r n true rest
+    | _ => false
+
+def abortOK (T : Tables) : Bool :=
+  abortShape false false false (expand T.fns expandFuel "MoleculeContainer.__exit__#exc" [])
+
 def TablesOK (T : Tables) : Bool :=
-  keepOK T && mutatorsOK T && enterOK T && exitOK T && subOK T && readOK T && slotsOK T
+  keepOK T && mutatorsOK T && enterOK T && exitOK T && subOK T && readOK T && slotsOK T && abortOK T
 
 end ChythonModel.Model.C13
